@@ -20,6 +20,43 @@ pub enum REntry {
     ReaderValidate,
     ReadValid,
     ReadValidate,
+    /// closure helper whose closure skips the document (`IgnoredAny`) instead of building a value
+    WdReaderSkip,
+    /// closure helper whose closure takes the first element of the root collection and returns
+    WdReaderFirst,
+}
+
+/// Takes the first element / entry of a sequence or mapping (as an untyped value) and stops.
+struct FirstOnly;
+impl<'de> serde::de::Visitor<'de> for FirstOnly {
+    type Value = String;
+    fn expecting(&self, f: &mut std::fmt::Formatter) -> std::fmt::Result {
+        f.write_str("anything")
+    }
+    fn visit_seq<A: serde::de::SeqAccess<'de>>(self, mut a: A) -> Result<String, A::Error> {
+        Ok(format!("{:?}", a.next_element::<serde_json::Value>()?))
+    }
+    fn visit_map<A: serde::de::MapAccess<'de>>(self, mut a: A) -> Result<String, A::Error> {
+        Ok(format!("{:?}", a.next_entry::<serde_json::Value, serde_json::Value>()?))
+    }
+    fn visit_str<E>(self, v: &str) -> Result<String, E> {
+        Ok(v.to_string())
+    }
+    fn visit_unit<E>(self) -> Result<String, E> {
+        Ok("null".into())
+    }
+    fn visit_bool<E>(self, v: bool) -> Result<String, E> {
+        Ok(v.to_string())
+    }
+    fn visit_i64<E>(self, v: i64) -> Result<String, E> {
+        Ok(v.to_string())
+    }
+    fn visit_u64<E>(self, v: u64) -> Result<String, E> {
+        Ok(v.to_string())
+    }
+    fn visit_f64<E>(self, v: f64) -> Result<String, E> {
+        Ok(v.to_string())
+    }
 }
 
 impl REntry {
@@ -34,7 +71,9 @@ impl REntry {
     }
 }
 
-pub const PLAIN_ENTRIES: [REntry; 4] = [REntry::FromReader, REntry::WdReader, REntry::Read, REntry::ReadPlain];
+// (a closure that stops after the first element - WdReaderFirst - always gets an error from the helper,
+// for string and reader input alike: nothing to learn from faults there, it is not in the tables)
+pub const PLAIN_ENTRIES: [REntry; 5] = [REntry::FromReader, REntry::WdReader, REntry::Read, REntry::ReadPlain, REntry::WdReaderSkip];
 pub const VALID_ENTRIES: [REntry; 4] = [
     REntry::ReaderValid,
     REntry::ReaderValidate,
@@ -128,6 +167,22 @@ fn run_plain<T: DeserializeOwned + Debug>(
         REntry::WdReader => {
             let r = guard(|| {
                 serde_saphyr::with_deserializer_from_reader_with_options(rd, opts.to_options(), |de| T::deserialize(de))
+            });
+            single = Some(lab::canon(r, &mut renders));
+        }
+        REntry::WdReaderSkip => {
+            let r = guard(|| {
+                serde_saphyr::with_deserializer_from_reader_with_options(rd, opts.to_options(), |de| {
+                    <serde::de::IgnoredAny as Deserialize>::deserialize(de).map(|_| ())
+                })
+            });
+            single = Some(lab::canon(r, &mut renders));
+        }
+        REntry::WdReaderFirst => {
+            let r = guard(|| {
+                serde_saphyr::with_deserializer_from_reader_with_options(rd, opts.to_options(), |de| {
+                    serde::Deserializer::deserialize_any(de, FirstOnly)
+                })
             });
             single = Some(lab::canon(r, &mut renders));
         }
@@ -662,8 +717,11 @@ fn one_eof(
             if let Some(prefix) = decode_prefix(bytes, k) {
                 let prefix = prefix.as_str();
                 let m = crate::with_target!(c.target, mem_ref(prefix, &c.opts));
+                // (closures that skip or stop early produce a value of their own: only Ok / Err is compared)
+                let own_value = matches!(c.entry, REntry::WdReaderSkip | REntry::WdReaderFirst);
                 let agree = match (o, &m) {
-                    (Outcome::Ok(a), Outcome::Ok(b)) => a == b,
+                    (Outcome::Ok(a), Outcome::Ok(b)) => own_value || a == b,
+                    (Outcome::Ok(_), Outcome::Err(_)) if own_value => true,
                     (Outcome::Err(_), Outcome::Err(_)) => true,
                     _ => false,
                 };
@@ -1685,7 +1743,7 @@ pub fn gen_case(plan: &Plan, tier: Tier, seed: u64, idx: u64) -> Case {
             REntry::ReadPlain,
             REntry::FromReader,
             REntry::Read,
-            REntry::WdReader,
+            REntry::WdReaderSkip,
             REntry::ReadPlain,
         ][e];
         let target = if e >= 4 { Target::Json } else { t };
